@@ -85,6 +85,16 @@ def run(module, cfg_text, *, env=None, workers=NCPU, timeout=600, simulate=None,
             shutil.copy(f, d)
         with open(os.path.join(d, module + ".cfg"), "w") as fh:
             fh.write(cfg_text)
+        dump = os.environ.get("VERIF_DUMP_CFG")
+        if dump:                                  # keep a copy of every distinct configuration used (spec/cfg/ is made this way)
+            os.makedirs(dump, exist_ok=True)
+            import hashlib
+            head = "\\* " + module + ".tla  -- run with:  tlc -workers 16 -config <this file> " + module + ".tla" + \
+                   ("".join(f"\n\\*   environment: {k}=<path>" for k in (env or {})) if env else "") + \
+                   (f"\n\\*   mode: -simulate {simulate}" if simulate else "") + "\n"
+            name = f"{module}.{hashlib.sha256(cfg_text.encode()).hexdigest()[:8]}.cfg"
+            with open(os.path.join(dump, name), "w") as fh:
+                fh.write(head + cfg_text)
         for name, text in (extra_files or {}).items():
             with open(os.path.join(d, name), "w") as fh:
                 fh.write(text)
